@@ -241,7 +241,10 @@ class Run:
             return False
 
         def exc_is_exception():
-            for k, ch in self.children.items():
+            if self.raised is not None:
+                # the exception in flight (symbolically: the last one raised)
+                return isinstance(self.raised, Exception)
+            for k, ch in reversed(list(self.children.items())):
                 if raised('h%d' % k):
                     return ch[2] == 'exception'
             return True   # a probe raised NameError
